@@ -194,7 +194,11 @@ class SeedState:
                     "snap0": snap}
         if self.kind == "f":
             from psyclone.psyir.frontend.fortran import FortranReader
-            root = FortranReader().psyir_from_source(self.info["src"])
+            if self.info.get("file"):
+                root = FortranReader().psyir_from_file(
+                    os.path.join(seeds.TEST_FILES, self.info["file"]))
+            else:
+                root = FortranReader().psyir_from_source(self.info["src"])
         else:
             from psyclone.parse.algorithm import parse
             from psyclone.psyGen import PSyFactory
@@ -207,13 +211,17 @@ class SeedState:
             _ = psy.invokes.invoke_list
             root = psy.container
         for tname, ctor, tdesc, odesc in self.info["pre"]:
-            trans = core.make_transformation(tname, ctor)
+            trans = core.make_transformation(tname, ctor, root)
             has_opt, opts = core.decode_options(odesc)
-            target = core.resolve_target(root, tdesc)
-            if has_opt:
-                trans.apply(target, opts)
-            else:
-                trans.apply(target)
+            tdescs = tdesc if isinstance(tdesc, list) else [tdesc]
+            args = [core.resolve_target(root, d) for d in tdescs]
+            import contextlib
+            import io
+            with contextlib.redirect_stdout(io.StringIO()):
+                if has_opt:
+                    trans.apply(*args, opts)
+                else:
+                    trans.apply(*args)
         inst = {"root": root, "psy": psy, "dirty": False, "uses": 0}
         inst["snap0"] = core.snapshot(root)
         if self.pristine is None:
@@ -349,7 +357,7 @@ class Runner:
         when it differs and a TransformationError propagated is the judged
         fingerprint computed and compared with the pristine one."""
         args = [core.resolve_target(inst["root"], d) for d in tdescs]
-        trans = core.make_transformation(self.trans, self.ctor)
+        trans = core.make_transformation(self.trans, self.ctor, inst["root"])
         res = core.run_apply(trans, args, odesc, inject)
         res["hidden"] = False
         if core.snapshot(inst["root"]) == inst["snap0"]:
@@ -407,12 +415,21 @@ class Runner:
             self.evals += 1
         outcome = res["outcome"]
         mode = "inject" if inject is not None else "plain"
+        if outcome == "TE" and inject is not None and \
+                not core.carries_injection(res["err"]):
+            # the injected refusal was swallowed by the code under test and a
+            # different refusal propagated later: the state it was raised
+            # from need not be reachable without injection - counted only
+            self._count("inject:swallowed-then-other-refusal"
+                        + ("-changed" if changed else ""))
+            if res["fullsite"]:
+                self.sites[res["fullsite"]] = \
+                    self.sites.get(res["fullsite"], 0) + 1
+            return res
         if outcome == "TE":
             where = res["site"]
             if inject is not None:
                 where = self._inject_label(res, inject)
-                if res["site"] != "injected":
-                    where += f">{res['site']}"
             if res["fullsite"]:
                 self.sites[res["fullsite"]] = \
                     self.sites.get(res["fullsite"], 0) + 1
@@ -523,7 +540,8 @@ class Runner:
         inst = self.sst.build()
         for tdescs, odesc, inject in self.refused:
             args = [core.resolve_target(inst["root"], d) for d in tdescs]
-            trans = core.make_transformation(self.trans, self.ctor)
+            trans = core.make_transformation(self.trans, self.ctor,
+                                             inst["root"])
             core.run_apply(trans, args, odesc, inject)
         text = self.sst.gen_text(inst)
         self._count("gen-pass:refused-attempts-covered", len(self.refused))
@@ -534,7 +552,8 @@ class Runner:
         for tdescs, odesc, inject in self.refused:
             inst = self.sst.build()
             args = [core.resolve_target(inst["root"], d) for d in tdescs]
-            trans = core.make_transformation(self.trans, self.ctor)
+            trans = core.make_transformation(self.trans, self.ctor,
+                                             inst["root"])
             res = core.run_apply(trans, args, odesc, inject)
             text = self.sst.gen_text(inst)
             if text != ref and res["outcome"] == "TE":
